@@ -160,4 +160,113 @@ def formatB (n : Int) : Str :=
 abbrev PySet (α : Type) := List α
 -- --- T3 end
 
+/-! --- T6: exceptions as values, `int | str` sum type, digit-group splitting (`re.split(r"(\d+)", s)`), `str.isdigit`,
+    `int(str)`, `str.split(c)`, dict lookup, `functools.reduce`, Python's list comparison on `int | str` items.
+    DOMAIN (documented, see harness/translate_t6.py): strings whose digit characters are the ASCII digits – CPython's `\d`
+    (Unicode category Nd, 680 characters), `str.isdigit` (Numeric_Type Digit or Decimal, 808 characters) and `int` differ from
+    each other on non-ASCII digits; `int(str)` additionally strips ASCII whitespace only.  Every function below is compared
+    with CPython by harness/prelude_check.py. -/
+
+/-- the Python exception classes the translated functions raise (`raise X(…)` is rendered as `.error .X`); `OutOfFuel` is
+    not a Python exception: a translated `while` loop ran out of its explicit fuel (the Python would still be running) -/
+inductive Exc where
+  | ValueError | TypeError | KeyError | NotImplementedError | IndexError | OutOfFuel
+  deriving DecidableEq, Repr
+
+/-- a value that is a Python `int` or a Python `str` (an element of a natural sort key) -/
+inductive IntOrStr where
+  | int (n : Int)
+  | str (s : Str)
+  deriving DecidableEq, Repr
+
+def isAsciiDigit (c : Char) : Bool := decide (48 ≤ c.toNat) && decide (c.toNat ≤ 57)
+
+/-- `s.isdigit()` (domain: the digit characters of `s` are ASCII) -/
+def isdigit (s : Str) : Bool := !s.isEmpty && s.all isAsciiDigit
+
+/-- `int(s)` for a non-empty string of ASCII digits -/
+def intOfDigits (s : Str) : Int := s.foldl (fun acc c => 10 * acc + charDigit c) 0
+
+/-- `re.split(r"(\d+)", s)`: alternating non-digit / digit groups INCLUDING the empty strings CPython produces at the ends
+    (and nowhere else: two matches of `\d+` are never adjacent).  `inDigits` = inside a digit group, `acc` = the current group,
+    reversed. -/
+def reSplitDigitsGo : Bool → List Char → List Char → List Str
+  | false, acc, [] => [acc.reverse]
+  | true, acc, [] => [acc.reverse, []]
+  | false, acc, c :: cs =>
+    if isAsciiDigit c then acc.reverse :: reSplitDigitsGo true [c] cs else reSplitDigitsGo false (c :: acc) cs
+  | true, acc, c :: cs =>
+    if isAsciiDigit c then reSplitDigitsGo true (c :: acc) cs else acc.reverse :: reSplitDigitsGo false [c] cs
+
+def reSplitDigits (s : Str) : List Str := reSplitDigitsGo false [] s
+
+/-- `s.split(c)` for a one-character separator -/
+def splitCharGo (sep : Char) : List Char → List Char → List Str
+  | acc, [] => [acc.reverse]
+  | acc, c :: cs => if c == sep then acc.reverse :: splitCharGo sep [] cs else splitCharGo sep (c :: acc) cs
+
+def splitChar (s : Str) (sep : Char) : List Str := splitCharGo sep [] s
+
+def isAsciiSpace (c : Char) : Bool := c == ' ' || (decide (9 ≤ c.toNat) && decide (c.toNat ≤ 13))
+
+/-- digits with single underscores strictly between digits (`pd` = the previous character was a digit) -/
+def natParseGo : Bool → Nat → List Char → Option Nat
+  | pd, acc, [] => if pd then some acc else none
+  | pd, acc, c :: cs =>
+    if isAsciiDigit c then natParseGo true (10 * acc + (c.toNat - 48)) cs
+    else if c == '_' && pd then
+      match cs with
+      | d :: _ => if isAsciiDigit d then natParseGo false acc cs else none
+      | [] => none
+    else none
+
+/-- `int(s)` (base 10) on ASCII strings: surrounding ASCII whitespace, an optional sign, digits with single underscores
+    between them; `.error .ValueError` otherwise -/
+def intParse (s : Str) : Except Exc Int :=
+  let t := ((s.dropWhile isAsciiSpace).reverse.dropWhile isAsciiSpace).reverse
+  let r : Option Int :=
+    match t with
+    | '-' :: ds => (natParseGo false 0 ds).map (fun n => -(n : Int))
+    | '+' :: ds => (natParseGo false 0 ds).map (fun n => (n : Int))
+    | ds => (natParseGo false 0 ds).map (fun n => (n : Int))
+  match r with
+  | some v => .ok v
+  | none => .error .ValueError
+
+-- (T6 uses `Dict` of the T2 block above also for a dict built by a comprehension: the list of its `key: value` pairs in
+--  generation order, a later pair overriding an earlier one on lookup)
+
+/-- `d[k]`: the LAST pair with key `k` wins (a later `key: value` overwrites an earlier one); `KeyError` if there is none -/
+def dictGet {κ ν : Type} [BEq κ] (d : Dict κ ν) (k : κ) : Except Exc ν :=
+  match (d.reverse.find? (fun p => p.1 == k)) with
+  | some p => .ok p.2
+  | none => .error .KeyError
+
+/-- `functools.reduce(op, args)` without initial value: `TypeError` on an empty sequence -/
+def reduce {β : Type} (op : β → β → β) : List β → Except Exc β
+  | [] => .error .TypeError
+  | v :: vs => .ok (vs.foldl op v)
+
+/-- Python `str < str`: lexicographic by code point -/
+def cmpStr : Str → Str → Ordering
+  | [], [] => .eq
+  | [], _ :: _ => .lt
+  | _ :: _, [] => .gt
+  | a :: as, b :: bs => if a.toNat < b.toNat then .lt else if b.toNat < a.toNat then .gt else cmpStr as bs
+
+/-- comparing two items that are not `==` with `<`: `none` = TypeError (`int` against `str`) -/
+def cmpIntOrStr : IntOrStr → IntOrStr → Option Ordering
+  | .str a, .str b => some (cmpStr a b)
+  | .int a, .int b => some (compare a b)
+  | _, _ => none
+
+/-- Python's list / tuple comparison: skip the common `==` prefix (an `int` never `==` a `str`), then compare the first
+    differing items; `none` = TypeError -/
+def cmpKeys : List IntOrStr → List IntOrStr → Option Ordering
+  | [], [] => some .eq
+  | [], _ :: _ => some .lt
+  | _ :: _, [] => some .gt
+  | a :: as, b :: bs => if a = b then cmpKeys as bs else cmpIntOrStr a b
+-- --- end T6
+
 end OQ.Py
